@@ -271,7 +271,7 @@ def typing_errors():
 
 
 # near-misses of the families above that cl does NOT diagnose on the current tree (err == nil, Go rejects
-# the output): known findings of C06, listed by these names in known_findings.d/C06.txt
+# the output): known findings of C06, listed by these names in known_findings.txt
 KNOWN_UNDIAGNOSED = {
     "dup-interface-method": "duplicate method in an interface type: \"duplicate method M\"",
     "dup-field-in-literal": "`S{a: 1, b: 2, a: 3}`: \"duplicate field name a in struct literal\"",
